@@ -74,13 +74,52 @@ def gen_envelope(rng, big):
     fn = fn_r * fs
     nch = int(rng.integers(2, 7))
     phi = np.round(rng.uniform(-1, 1, nch) * 64) / 64
-    phi[int(rng.integers(nch))] = float(rng.choice([1.0, -1.0]))
+    top = int(rng.integers(nch))
+    phi[top] = float(rng.choice([1.0, -1.0]))
+    r = rng.random()
+    if r < 0.25:  # nodes: exact zeros at some sensors (never at the largest component)
+        for i in rng.choice([i for i in range(nch) if i != top], size=int(rng.integers(1, nch)), replace=False):
+            phi[int(i)] = 0.0
+    elif r < 0.4:  # equal magnitudes, arbitrary sign pattern
+        phi = rng.choice([1.0, -1.0], size=nch)
     bw = 2 * xi * fn
     return dict(kind="envelope", fs=fs, nxseg=nxseg, fn=fn, xi=xi, phi=phi.tolist(),
                 eps_rel=float(10.0 ** rng.uniform(-12, -7)), gain=float(10.0 ** rng.uniform(-8, 8)),
                 DF2=float(bw * rng.choice([4.0, 4.5, 6.0, 10.0, 20.0, 40.0])), DF1=float(bw * rng.choice([0.5, 1.0, 2.0])),
                 sel=float(fn + bw * rng.uniform(-0.45, 0.45)), layout=str(rng.choice(LAYOUTS)),
                 c=float(rng.choice([2.0 ** int(rng.integers(-40, 41)), 10.0 ** rng.uniform(-12, 12), 3.0, 1e-3, 7e5])))
+
+
+SPECIAL_SHAPES = (
+    [0.0, 1.0, -0.5],                      # node at the first sensor
+    [1.0, -0.5, 0.0],                      # node at the last sensor
+    [0.0, 1.0, 0.0, -0.75, 0.0, 0.5],      # nodes at several sensors
+    [1.0, 1.0],                            # equal magnitudes
+    [1.0, -1.0, 1.0, -1.0],                # alternating signs, equal magnitudes
+    [-1.0, -1.0, -1.0],                    # all negative
+    [0.0, 0.0, 1.0],                       # one live sensor, last
+    [1.0, 0.0],                            # one live sensor, first
+    [0.0, -1.0],                           # node first, negative
+    [-0.5, 0.5, 0.0, 1.0, -1.0],           # ties, signs and a node
+    [0.0, 0.0, 0.0, 0.0, 0.0, -1.0],       # five nodes
+    [0.5, 0.5, -0.5, 0.5],                 # equal magnitudes below the unit one is missing: 0.5 everywhere
+    [0.0, 0.25, 1.0, 0.25, 0.0],           # symmetric with nodes at both ends
+    [1.0, 0.0, -1.0],                      # antisymmetric with a central node
+)
+
+
+def special_shape_points(thorough):
+    """Envelope points whose (real) mode shape has exact zeros, sign patterns or equal magnitudes."""
+    pars = [(100.0, 1024, 0.123, 0.03), (1.0, 2000, 0.2, 0.02)] + ([(12.5, 1536, 0.07, 0.05), (5000.0, 4096, 0.05, 0.025)] if thorough else [])
+    out = []
+    for i, phi in enumerate(SPECIAL_SHAPES):
+        for j, (fs, nxseg, fn_r, xi) in enumerate(pars if thorough else [pars[i % 2]]):
+            fn = fn_r * fs
+            bw = 2 * xi * fn
+            out.append(dict(kind="envelope-shape", fs=fs, nxseg=nxseg, fn=fn, xi=xi, phi=list(phi), eps_rel=(1e-10, 1e-8, 1e-12)[(i + j) % 3],
+                            gain=(1.0, 1e-5, 1e4)[(i + j) % 3], DF2=bw * (4.0, 8.0)[(i + j) % 2], DF1=bw, sel=fn + bw * (0.2, -0.3, 0.0)[(i + j) % 3],
+                            c=(7.0, 2.0 ** -30, 1e6)[(i + j) % 3], scale_test=bool(thorough or i % 3 == 0), layout=LAYOUTS[(i + j) % 3]))
+    return out
 
 
 CORNER_NXSEG = (2000, 4000, 6000, 8000, 1025, 3000)
@@ -715,12 +754,16 @@ def run_classes(ctx, rng):
     from pyoma2.algorithms import EFDD, FSDD
     from pyoma2.setup import SingleSetup
 
+    sp_all = special_shape_points(False)
+    specs = [sp_all[i] for i in ((0, 2, 4) if ctx.quick() else range(len(sp_all)))]
     for k in range(ctx.n(3, 16)):
         spec = gen_envelope(rng, big=False)
         spec["nxseg"] = min(spec["nxseg"], 2600)
         while not in_envelope(spec["fs"], spec["nxseg"], spec["fn"], spec["xi"], spec["DF2"]):
             spec = gen_envelope(rng, big=False)
             spec["nxseg"] = min(spec["nxseg"], 2600)
+        specs.append(spec)
+    for k, spec in enumerate(specs):
         fs, nxseg = spec["fs"], spec["nxseg"]
         phi = np.array(spec["phi"])
         f, Sy, s, eps = build_sy(fs, nxseg, spec["fn"], spec["xi"], phi, spec["eps_rel"], spec["gain"])
@@ -837,6 +880,10 @@ def run(ctx):
         oracle_multipick(ctx, sp)
     for sp in ints:
         oracle_intpick(ctx, sp)
+    # ---- mode shapes with nodes (exact zeros), sign patterns, equal magnitudes (both tiers)
+    for spec in special_shape_points(not ctx.quick()):
+        ctx.hist("oracle special shape", str(spec["phi"]))
+        oracle_case(ctx, spec)
     # ---- deterministic corners of the envelope (both tiers)
     for spec in corner_points(not ctx.quick()):
         ctx.hist("oracle corner", (spec["nxseg"], spec["end"], spec["xi"]))
